@@ -99,7 +99,7 @@ var anchorBare, anchorQualified = func() (map[string]bool, map[string][]string) 
 }()
 
 // structuralAnchors: functions that are units of the rules by what they are, whatever they are called.
-var structuralAnchors = []func(*ssa.Function) bool{isACLCheckFn}
+var structuralAnchors = []func(*ssa.Function) bool{isACLCheckFn, isGlobMatcher}
 
 func isAnchored(g *ssa.Function) bool {
 	if _, ok := renamedFns.Load(g); ok {
